@@ -28,7 +28,7 @@ instance : PreRel (OutGrows (ν := ν)) where
 instance : Stable (OutGrows (ν := ν)) where
   heap s h := .of_out_eq rfl
   stack s st cs := .of_out_eq rfl
-  modules s m := .of_out_eq rfl
+  exports s i md e _ := .of_out_eq rfl
 
 theorem setElement_out (name : String) (v : Addr) (s : VM ν) : (setElement name v s).2.out = s.out := by
   unfold setElement
